@@ -154,3 +154,23 @@ def run_submit(ctx, libs, cases, shards=6):
             for (ci, _), r in zip(part, f.result()):
                 recs[ci] = r
     return recs
+
+
+def loop_flag_probe(ctx):
+    """for translate/hashflags: () -> bool, True iff the witness of defect F1 (sealed cycle, identifiers requested in
+    three orders) no longer makes the real code return order-dependent identifiers"""
+    def probe():
+        from .props import c01
+
+        class _Proxy:
+            hit = False
+
+            def __getattr__(self, k):
+                return getattr(ctx, k)
+
+            def monitor_fail(self, *a, **k):
+                self.hit = True
+        px = _Proxy()
+        c01.run_witness(px, {"id": "F1", "witness": {"kind": "sealed-cycle"}})
+        return not px.hit
+    return probe
